@@ -244,3 +244,13 @@ Definition resp_okb (d : domain) (opts : list Q) (n : nat) (r : response) : bool
 Definition resp_nocost_okb (d : domain) (n : nat) (r : response) : bool :=
   forallb (admissibleb d) (r_points r) && count_okb d n (length (r_points r)) &&
   match r_costs r with None => true | Some _ => false end.
+
+(* ------------------------------------------------------------------ the views' own post-condition:
+   `assert len(categorical_next_points) == num_to_sample or self.domain.is_discrete` (GpNextPointsCategorical.view,
+   SearchNextPoints.view).  None = AssertionError.  An int-constrained domain with a double parameter whose decode deletes a
+   row fails it (finding "C01:gp-search:int-constrained-short-batch-assertion-error", Props/C01_refuted.v). *)
+Definition view_assert (d : domain) (n : nat) (r : option response) : option response :=
+  obind r (fun x => if Nat.eqb (length (r_points x)) n || is_discrete d then Some x else None).
+Definition gp_view (d : domain) (opts : list Q) (parallel : bool) (af : row -> Q) (xs : list row)
+  (hist : list point) (hist_oh : list row) (o : gporc) : option response :=
+  view_assert d (length xs) (gp_tail d opts parallel af xs hist hist_oh o).
